@@ -41,6 +41,19 @@ def site_of(tb, repo="/repo/"):
     return s
 
 
+def hang_site(tb, repo="/repo/"):
+    """where a run was interrupted by the alarm: the interruption point inside a loop is arbitrary (helper calls,
+    different lines of the loop body), so only the innermost RULE function (file::function) is kept; for a loop
+    outside the rule layer the innermost file"""
+    frames = [f for f in traceback.extract_tb(tb) if repo in f.filename]
+    if not frames:
+        return "?"
+    for fr in reversed(frames):
+        if "/rules/" in fr.filename:
+            return f"{fr.filename.split('/norminette/')[-1]}::{fr.name}"
+    return frames[-1].filename.split('/norminette/')[-1]
+
+
 def serve():
     sys.dont_write_bytecode = True
     sys.path.insert(0, os.path.dirname(os.path.dirname(os.path.abspath(__file__))))
@@ -67,7 +80,7 @@ def serve():
             finally:
                 signal.setitimer(signal.ITIMER_REAL, 0)
         except _Hang as e:
-            res = {"hang": site_of(e.__traceback__)}
+            res = {"hang": hang_site(e.__traceback__)}
         except BaseException as e:   # noqa
             res = {"crash": f"{type(e).__name__}: {e}", "site": site_of(e.__traceback__),
                    "tb": traceback.format_exc()[-1500:]}
